@@ -149,6 +149,7 @@ type Knobs struct {
 	LocQuery              bool   // Location carries a query string
 	LocChanges            bool   // Location changes on every PATCH
 	PartialEvery          int    // >0: every n-th PATCH accepts only part of the chunk (202 with a shorter Range)
+	PartialMaxBytes       int    // >0: every PATCH accepts at most this many bytes (a destination with a small receive window): long runs of partial acceptance
 	Partial416            bool   // partial acceptance reported as 416 with Range/Location on the *next* out-of-order chunk instead
 	Early201              bool   // PATCH of the last chunk answers 201 (ECR style)
 	RefuseMonoPut         bool   // PUT with a body on a fresh session is refused with 400 (forces chunked fall-back)
@@ -695,6 +696,9 @@ func (g *Reg) uploads(req *simnet.Request, repo, id string, q url.Values) *simne
 		u.LastChunk = len(body)
 		if g.K.PartialEvery > 0 && g.patchN%g.K.PartialEvery == 0 && len(body) > 1 {
 			body = body[:1+len(body)/2] // accept only part; at least one byte so that the Range reply is unambiguous
+		}
+		if g.K.PartialMaxBytes > 0 && len(body) > g.K.PartialMaxBytes {
+			body = body[:g.K.PartialMaxBytes]
 		}
 		u.Data = append(u.Data, body...)
 		if g.K.LocChanges {
